@@ -200,6 +200,26 @@ fn conn_seeds(me: &[u8], peer: &[u8], l: &Learned, v6: bool) -> Vec<IpSeed> {
 pub const EDGE_ISNS: [u32; 7] = [0x7fff_ff00, 0x7fff_ffe0, 0x7fff_ffff, 0x8000_0000, 0xffff_ff00, 0xffff_ffe0, 0xffff_ffff];
 pub const EDGE_VALUES: [u32; 5] = [0x7fff_ff00, 0x7fff_ffff, 0x8000_0000, 0xffff_ff00, 0xffff_ffff];
 pub const P_PEER_EDGE: u16 = 4446;
+/// payload sizes relative to the sockets' receive window (= buffer) of SOCK_BUF = 64 octets
+pub const WINDOW_SIZES: [usize; 5] = [1, SOCK_BUF / 2, SOCK_BUF, SOCK_BUF + 1, 2 * SOCK_BUF];
+/// source ports around the LOWPAN_NHC UDP port-compression ranges (0xf0b0..=0xf0bf 4 bit,
+/// 0xf000..=0xf0ff 8 bit) for datagrams to the echo sockets
+pub const ECHO_SRC_PORTS: [u16; 6] = [0xf0b0, 0xf0bf, 0xf0c0, 0xf0ff, 0xf100, 0x1234];
+
+/// Datagrams to the two echo servers (ports 0xf0bf, 0xf0ff) from every source port of
+/// ECHO_SRC_PORTS; the application sends them back, so the interface has to EMIT datagrams
+/// with these port pairs in the following poll.
+fn udp_echo_seeds(v6: bool) -> Vec<IpSeed> {
+    let (me, peer): (&[u8], &[u8]) = if v6 { (&IFACE6, &PEER6) } else { (&IFACE4, &PEER4) };
+    let fam = if v6 { "v6" } else { "v4" };
+    let mut v = vec![];
+    for dport in P_ECHO {
+        for sport in ECHO_SRC_PORTS {
+            v.push(s(&format!("{}/udp-echo/{:04x}/from-{:04x}", fam, dport, sport), ip(peer, me, 17, &udp(peer, me, sport, dport, b"echo me")), true));
+        }
+    }
+    v
+}
 
 /// SYN to the listening socket with the given initial sequence number (also used by the
 /// harness to learn which ISS the stack answers with from the base state).
@@ -236,12 +256,25 @@ fn tcp_edge_seeds(me: &[u8], peer: &[u8], l: &Learned, v6: bool) -> Vec<IpSeed> 
             seg("overlap", nxt.wrapping_sub(16), ACK, &[0x72; 48]);
             seg("fin", nxt, ACK | FIN, &[]);
             seg("rst", nxt, RST, &[]);
+            // data of 1 octet, half the receive window, the whole window, one more, twice the
+            // window - at RCV.NXT ("w-d<n>") and half a window further on ("w-h<n>")
+            for n in WINDOW_SIZES {
+                seg(&format!("w-d{}", n), nxt, ACK | PSH, &vec![0x77; n]);
+                seg(&format!("w-h{}", n), nxt.wrapping_add(SOCK_BUF as u32 / 2), ACK | PSH, &vec![0x68; n]);
+            }
         }
     }
     // the ESTABLISHED socket (RCV.NXT far away from the edges): sequence / acknowledgment
     // numbers sitting on the edges
     let snd = PEER_ISN.wrapping_add(1);
     let rcv = l.est_iss.wrapping_add(1);
+    // the same window-relative data segments for the connection that is already ESTABLISHED
+    for n in WINDOW_SIZES {
+        for (role, seq) in [(format!("w-d{}", n), snd), (format!("w-h{}", n), snd.wrapping_add(SOCK_BUF as u32 / 2))] {
+            let t = tcp(peer, me, P_PEER_EST, P_EST, seq, rcv, ACK | PSH, 2048, &[], &vec![0x57; n]);
+            v.push(s(&format!("{}/tcp-w/est/{}", fam, role), ip(peer, me, 6, &t), false));
+        }
+    }
     for e in EDGE_VALUES {
         for (role, seq, ack) in [("seq", e, rcv), ("ack", snd, e), ("both", e, e)] {
             let t = tcp(peer, me, P_PEER_EST, P_EST, seq, ack, ACK, 2048, &[], b"e");
@@ -313,6 +346,7 @@ fn v4_seeds(cfg: Cfg, l: &Learned) -> Vec<IpSeed> {
     v.push(s("v4/igmp/report", q(&GROUP4, igmp(0x16, 0, &GROUP4)), false));
     v.push(s("v4/igmp/leave", q(&[224, 0, 0, 2], igmp(0x17, 0, &GROUP4)), false));
     v.push(s("v4/udp/open-port", ip(peer, me, 17, &udp(peer, me, 4000, P_UDP, b"hello udp")), true));
+    v.extend(udp_echo_seeds(false));
     v.push(s("v4/udp/closed-port", ip(peer, me, 17, &udp(peer, me, 4000, 9, b"nobody home")), cfg.variant != 1));
     v.push(s("v4/udp/broadcast", ip(peer, &bcast, 17, &udp(peer, &bcast, 4000, P_UDP, b"to all")), true));
     v.push(s("v4/udp/limited-broadcast", ip(peer, &[255; 4], 17, &udp(peer, &[255; 4], 4000, P_UDP, b"to all")), true));
@@ -460,6 +494,7 @@ fn v6_seeds(cfg: Cfg, l: &Learned) -> Vec<IpSeed> {
     v.extend(icmp_cut_seeds(l, true));
     // UDP / TCP
     v.push(s("v6/udp/open-port", ipv6(peer, me, 17, 64, &udp(peer, me, 4000, P_UDP, b"hello udp6")), true));
+    v.extend(udp_echo_seeds(true));
     v.push(s("v6/udp/closed-port", ipv6(peer, me, 17, 64, &udp(peer, me, 4000, 9, b"nobody home")), cfg.variant != 1));
     v.push(s("v6/udp/nhc-port", ipv6(peer, me, 17, 64, &udp(peer, me, 0xf0b2, P_UDP_NHC, b"compressible")), true));
     v.push(s("v6/udp/all-nodes", ipv6(peer, &ALL_NODES6, 17, 64, &udp(peer, &ALL_NODES6, 4000, P_UDP, b"mcast6")), true));
@@ -715,6 +750,24 @@ fn ieee802154_seeds(cfg: Cfg, l: &Learned) -> Vec<Seed> {
     add(&mut v, "nhc-udp/ports-inline-checksum-elided".into(), lowpan(&mac, &inline64, &udp_p(4000, P_UDP, b"no csum"), Comp::Udp(0, false)), false); // elided checksum: dropped since the UDP/IPv6 zero-checksum fix
     add(&mut v, "nhc-udp/4bit-checksum-elided".into(), lowpan(&mac, &inline64, &udp_p(0xf0b2, P_UDP_NHC, b""), Comp::Udp(3, false)), false); // elided checksum: dropped
     add(&mut v, "nhc-udp/closed-port".into(), lowpan(&mac, &inline64, &udp_p(4000, 9, b"closed"), Comp::Udp(0, true)), cfg.variant != 1);
+    // the echo datagrams in every LOWPAN_NHC port form their port pair admits
+    for dport in P_ECHO {
+        for sport in ECHO_SRC_PORTS {
+            let p = udp_p(sport, dport, b"echo me");
+            let b4 = |x: u16| (0xf0b0..=0xf0bf).contains(&x);
+            let b8 = |x: u16| (0xf000..=0xf0ff).contains(&x);
+            let mut forms = vec![0u8, 1];
+            if b8(sport) {
+                forms.push(2);
+            }
+            if b4(sport) && b4(dport) {
+                forms.push(3);
+            }
+            for form in forms {
+                add(&mut v, format!("nhc-udp-echo/{:04x}/from-{:04x}/form{}", dport, sport, form), lowpan(&mac, &inline64, &p, Comp::Udp(form, true)), true);
+            }
+        }
+    }
     if cfg.v6_peers() {
         let d = udp(p6, i6, 53, l.dns_port, &dns_response(l.dns_txid, true, 0));
         add(&mut v, "nhc-udp/dns-answer".into(), lowpan(&mac, &inline64, &ipv6(p6, i6, 17, 64, &d), Comp::Udp(0, true)), true);
@@ -812,8 +865,12 @@ pub fn catalogue(cfg: Cfg, l: &Learned) -> Vec<Seed> {
         v.retain(|sd| sd.frame.len() <= 127);
     }
     for sd in v.iter_mut() {
-        if sd.name.contains("/icmp-cut/") {
+        if sd.name.contains("/icmp-cut/") || sd.name.contains("/tcp-w/") {
             sd.mutate = 0;
+        }
+        if sd.name.contains("udp-echo/") {
+            // one datagram per echo socket gets the full mutation treatment
+            sd.mutate = if sd.name.ends_with("from-1234") || sd.name.ends_with("from-f0b0/form0") { 2 } else { 0 };
         }
         if cfg.variant == 2 {
             // variant C is about sequences; only segments for the closing connection get the
@@ -829,7 +886,8 @@ pub fn catalogue(cfg: Cfg, l: &Learned) -> Vec<Seed> {
         if sd.name.contains("/tcp-b/") {
             let open = sd.name.ends_with("/open");
             let est = sd.name.contains("/tcp-b/est/");
-            sd.pin = if open { 1 } else if est { 0 } else { 2 };
+            // (the window-size follow-ups are used by the scripted sequences only)
+            sd.pin = if open { 1 } else if est || sd.name.contains("/w-") { 0 } else { 2 };
             // one handshake segment per socket gets the full mutation treatment, the others
             // differ from it in the sequence number only
             sd.mutate = if sd.name.ends_with("7fffffe0/open") { 2 } else { 0 };
